@@ -1,5 +1,5 @@
 (* C19 (extension) -- the hand-written Python GLUE of the PyArrow / pandas implementations refines the specification.
-   Property theorems only (proofs in Proofs/MissingValueArrowP.v, MissingValuePandasP.v, TimeWindowFwP.v).
+   Property theorems only (proofs in Proofs/MissingValueArrowP.v, MissingValuePandasP.v, TimeWindowFwP.v, BuiltinsFwChkP.v).
 
    Model/MissingValueArrow.v   missing_value/pyarrow.py: _perform_imputation, _fill_null, the mode computation,
                                _perform_grouped_imputation (per-row loop, masks, fall-back, ffill / bfill by row number)
@@ -16,7 +16,9 @@ From Coq Require Import QArith List Bool Arith ZArith Permutation Sorted.
 Import ListNotations.
 Require Import MV.Spec.Builtins MV.Model.MissingValuePyDict MV.Model.BuiltinsFw.
 Require Import MV.Model.MissingValueArrow MV.Model.MissingValuePandas MV.Model.TimeWindowFw.
-Require Import MV.Proofs.ImputeP MV.Proofs.MissingValueArrowP MV.Proofs.MissingValuePandasP MV.Proofs.TimeWindowFwP.
+Require Import MV.Model.BuiltinsChk MV.Model.BuiltinsFwChk.
+Require Import MV.Proofs.ImputeP MV.Proofs.MissingValueArrowP MV.Proofs.MissingValuePandasP MV.Proofs.TimeWindowFwP
+               MV.Proofs.BuiltinsFwChkP.
 Open Scope Q_scope.
 
 (* ============================================ the contracts ============================================ *)
@@ -42,6 +44,15 @@ Proof.
   split. apply C19fw_stable_argsort_unique. reflexivity.
   intro H. apply C19fw_stable_argsort_unique in H. discriminate.
 Qed.
+
+(* the two contract clauses that are not equations have decidable forms; the tests of harness/c19.py evaluate those *)
+Theorem C19fw_sort_test_exact : forall times idx, stable_argsort_b times idx = true <-> is_stable_argsort times idx.
+Proof. exact stable_argsort_b_iff. Qed.
+Print Assumptions C19fw_sort_test_exact.
+Theorem C19fw_groups_test_sound : forall keys gs, groups_ok keys gs = true ->
+  exists ks, NoDup ks /\ (forall k, In k ks <-> In k keys) /\ gs = map (rows_with keys) ks.
+Proof. exact groups_ok_sound. Qed.
+Print Assumptions C19fw_groups_test_sound.
 
 (* ====================================== PyArrow imputation ====================================== *)
 (* the mode glue (value_counts, pc.max, the index loop, first index) = the first most frequent value *)
